@@ -85,6 +85,28 @@ def transparent_args(name, extra=None):
     return None
 
 
+_WRAPPER_VARIANTS = ("Some", "Ok", "Continue", "Break", "Err", "Occupied", "Vacant")
+
+
+def strip_wrappers(projs):
+    """drop leading `(x as Some).0`-style unwrapping projections (Option/Result/ControlFlow payloads)"""
+    projs = tuple(p for p in projs if p != "*")
+    while len(projs) >= 2 and projs[0][:1] == "d" and projs[0].split(":", 1)[-1] in _WRAPPER_VARIANTS \
+            and field_index(projs[1]) == 0:
+        projs = projs[2:]
+    if projs and projs[0][:1] == "d":
+        projs = projs[1:]
+    return projs
+
+
+def item_mode(name):
+    if name.endswith("::enumerate"):
+        return "enumerate"
+    if name.endswith("::zip"):
+        return "zip"
+    return "pass"
+
+
 def is_empty_ctor(name):
     if name is None or not is_std_path(name):
         return False
@@ -313,6 +335,8 @@ class Flow:
 
     def _place_origins(self, local, projs, at, stack):
         b = self.body
+        if "*" in projs:
+            projs = tuple(p for p in projs if p != "*")  # references are transparent
         rds = tuple(self.reaching_defs(local, at))
         key = (local, projs, rds)
         if key in self._memo:
@@ -338,15 +362,15 @@ class Flow:
             pass
         # weak updates: field writes, writes through pointers, container stores
         for (bb, j, place, rv) in self.partial.get(local, ()):  # field writes `l.f = rv`
-            wprojs = tuple(place[1:])
+            wprojs = tuple(q for q in place[1:] if q != "*")
             if self._proj_compatible(wprojs, projs):
                 rest = projs[len(wprojs):] if len(projs) >= len(wprojs) else ()
                 out |= self._rvalue_origins(rv, rest, (bb, j), stack)
         for (bb, j, place, rv) in self.ptr_writes.get(local, ()):  # `(*p).. = rv` with p rooted here
-            out |= self._rvalue_origins(rv, (), (bb, j), stack)
+            out |= self._rvalue_origins(rv, projs, (bb, j), stack)
         for (bb, ops) in self.stores.get(local, ()):  # push/insert/extend
             for o in ops:
-                out |= self._operand_origins(o, (), (bb, None), stack)
+                out |= self._operand_origins(o, projs, (bb, None), stack)
         res = frozenset(out)
         if self._cuts == cuts0 or len(stack) == 1:
             self._memo[key] = res
@@ -391,8 +415,7 @@ class Flow:
             return self._operand_origins(rv[1], projs, at, stack)
         if k in ("ref", "raw"):
             p = rv[2]
-            rest = projs[1:] if projs and projs[0] == "*" else projs
-            return self._place_origins(p[0], tuple(p[1:]) + tuple(rest), at, stack)
+            return self._place_origins(p[0], tuple(p[1:]) + tuple(projs), at, stack)
         if k == "cast":
             if rv[1] in ("Transmute", "PtrToPtr") or rv[1].startswith("PointerCoercion"):
                 return self._operand_origins(rv[2], projs, at, stack)
@@ -456,9 +479,27 @@ class Flow:
         ta = transparent_args(name, self.extra)
         if ta is not None:
             out = set()
-            for i in ta:
-                if i < len(t["args"]):
-                    out |= self._operand_origins(t["args"][i], (), (bb, None), stack)
+            rest = strip_wrappers(projs)
+            if name.endswith("::enumerate") or name.endswith("::zip"):
+                # handled when the *item* is projected: see below
+                pass
+            mode = item_mode(name)
+            for n_i, i in enumerate(ta):
+                if i >= len(t["args"]):
+                    continue
+                r = rest
+                if mode == "enumerate":
+                    if r and field_index(r[0]) == 0:
+                        out.add(("index", bb))
+                        continue
+                    if r and field_index(r[0]) == 1:
+                        r = r[1:]
+                elif mode == "zip":
+                    if r and field_index(r[0]) is not None:
+                        if field_index(r[0]) != n_i:
+                            continue
+                        r = r[1:]
+                out |= self._operand_origins(t["args"][i], r, (bb, None), stack)
             return out
         if is_empty_ctor(name) and not t["args"]:
             return set()
